@@ -21,7 +21,7 @@ import (
 )
 
 func TestMain(m *testing.M) {
-	vstat.Rule("Codecs: Raw, Hash{salt}, AES{16/24/32-byte key, ttl 0 or whole seconds >= 2}, Fallback(from,to) nested <= 2. Server URLs from a rich generator (userinfo with escapes, query incl. '|' ';' and escapes, escaped path incl. %2F, ';', ',', non-ASCII, port, IPv6 host). Scenario on RoundRobin or Rebalancer with the sticky option under a frozen clock: first request without cookie, the Set-Cookie is read exactly as a client would (http.Response.Cookies -> AddCookie), then follow-ups interleaved with pool changes (re-weight, add/remove other servers, extra NextServer calls), removal and re-adding of S, clock advances across the AES ttl, and bad cookies (truncated, bit-flipped, re-encoded, minted with another key/salt/codec, expired, naming a non-member). Oracle: cookie minted for S and S in the pool (and now < mint+ttl-1s) => the handler sees S; cookie absent/undecodable/expired(> mint+ttl+1s)/naming a non-member => handler status (never an error), req.URL in the pool, and a fresh cookie which the same codec resolves to the server chosen. Non-trivial: URL with userinfo, query or non-default path escaping, or a pool change between two requests of a session, or a bad cookie.")
+	vstat.Rule("Codecs: Raw, Hash{salt}, AES{16/24/32-byte key, ttl 0 or whole seconds >= 2}, Fallback(from,to) nested <= 2. Server URLs from a rich generator (userinfo with escapes, query incl. '|' ';' and escapes, escaped path incl. %2F, ';', ',', non-ASCII, port, IPv6 host). Scenario on RoundRobin or Rebalancer with the sticky option under a frozen clock: first request without cookie, the Set-Cookie is read exactly as a client would (http.Response.Cookies -> AddCookie), then follow-ups interleaved with pool changes (re-weight, add/remove other servers, extra NextServer calls), removal and re-adding of S, clock advances across the AES ttl, and bad cookies (truncated, bit-flipped, re-encoded, minted with another key/salt/codec, expired, naming a non-member). Oracle: cookie minted for S and S in the pool (and now < mint+ttl-1s) => the handler sees S; cookie absent/undecodable/expired(> mint+ttl+1s)/naming a non-member => handler status (never an error), req.URL in the pool, and a fresh cookie which the same codec resolves to the server chosen. Non-trivial: URL with userinfo, query or non-default path escaping, or a pool change between two requests of a session, or a bad cookie. Later additions: the client's other cookies may travel in the same Cookie field or in a Cookie field of their own before the affinity cookie; the backend may set cookies of its own; a quarter of the pools have a buffer between balancer and handler.")
 	vstat.Main(m.Run)
 }
 
